@@ -412,6 +412,11 @@ impl<'w> Worker<'w> {
     }
 }
 
+thread_local! {
+    /// responses addressed to something else than the request's source (checked in `run_one`)
+    static MISADDRESSED: std::cell::Cell<u64> = const { std::cell::Cell::new(0) };
+}
+
 fn exec(rt: &tokio::runtime::Runtime, srv: &Srv, bytes: &[u8], proto: Protocol) -> Result<Vec<Vec<u8>>, vcore::PanicInfo> {
     let src = srv.src;
     catch(|| {
@@ -421,7 +426,11 @@ fn exec(rt: &tokio::runtime::Runtime, srv: &Srv, bytes: &[u8], proto: Protocol) 
             let mut out = vec![];
             // the sender half was moved into the call and is dropped by now
             while let Some(m) = rx.next().await {
-                out.push(m.into_parts().0);
+                let (bytes, dst) = m.into_parts();
+                if dst != src {
+                    MISADDRESSED.with(|c| c.set(c.get() + 1));
+                }
+                out.push(bytes);
             }
             out
         })
@@ -867,6 +876,11 @@ fn run_one(w: &mut Worker, family: &str, pl: Place, req: &[u8], l: &mut Local) {
             }
         }
     }
+    if MISADDRESSED.with(|c| c.replace(0)) > 0 {
+        l.violation("destination:not-the-request-source", "a response was addressed to something else than the source of the request", || {
+            case_json(family, pl, req, None)
+        });
+    }
     if rebuild {
         w.servers[slot] = None;
     }
@@ -1052,18 +1066,31 @@ fn main() {
     }
 
     ctx.set_rule(
-        "E-ENUM, every element executed on the real Server front door + Catalog + InMemoryZoneHandler and followed by a fixed \
-         probe query on the same server object. Families: (F0) catalog shapes x access lists x UDP/TCP x query names x plain qtypes x EDNS x flags x ids; (F1) catalog shapes x access lists x UDP/TCP x query names x qtype x \
-         EDNS x EVERY opcode 0..15; (F2) shapes x access classes x UDP/TCP x names x qtypes x qclasses x 16 EDNS variants x \
-         opcodes; (F3) header product id x QR x opcode x single flag bit x request rcode nibble x 16 section-count variants \
-         (consistent/inconsistent with the body) x names x EDNS; (F4) EVERY prefix and EVERY single-byte substitution \
-         (structural alphabet S = {00,01,02,03,04,0c,3f,40,7f,80,bf,c0,c1,ff}; thorough: all 256 values) of representative \
-         requests; (F5) ALL strings over S up to a length bound as whole messages (sub-header); (F6) ALL strings over S up to a \
-         length bound as the body behind fixed headers. Oracle: reference front door written from the statement (count in \
-         {0,1}; 0 iff len<12 or QR=1; id; QR; decoded question equality for queries/updates not answered FORMERR/NOTIMP; SET of \
-         admissible rcodes where several conditions hold; longest-suffix zone identified by TXT marker / SOA / NS owner; no \
-         panic; probe answered byte-identically afterwards). Non-trivial = distinct (configuration, request) with >= 12 bytes \
-         and QR=0.",
+        "E-ENUM: every element of six declared request families is executed on the real Server front door (header gate, \
+         response gate, opcode gate, question parse, access lists, full parse) + real Catalog + real InMemoryZoneHandlers, \
+         each followed by a fixed probe query on the SAME server object. Configurations: 10 catalog shapes (single, nested 2/3, \
+         siblings, root, root+z, empty, chained [skip-all, in-memory], root+a.z, z+a.a.z; every zone carries a TXT marker \
+         naming itself at every queried owner it encloses) x 14 access-list/source configurations (v4, v4-mapped v6, v6) x \
+         UDP/TCP. Families: (F0) all configurations x 31 query names (apexes, names under each zone, outside every zone, root, \
+         label-boundary near-misses, upper/mixed case, 255- and 256-octet names, compression pointers into the header) x 6 \
+         plain qtypes x EDNS {none,v0,DO} x flags x ids; (F1) all configurations x names x qtypes x EDNS {none,v0,v1,v255,..} x \
+         EVERY opcode 0..15; (F2) shapes x access classes x UDP/TCP x names x 9 qtypes x 4 qclasses x 16 EDNS variants (payload \
+         0/512/65535, DO, options, two OPTs, OPT in answer/authority, OPT owner not root, option overrun) x opcodes; (F3) \
+         header product id{0,1,ffff} x QR x opcode 0..15 x {none,AA,TC,RD,RA,Z,AD,CD} x rcode nibble {0,15} x 16 section-count \
+         variants (consistent/inconsistent with the body) x names x EDNS; (F4) EVERY prefix and EVERY single-byte \
+         substitution (quick: structural alphabet S = {00,01,02,03,04,0c,3f,40,7f,80,bf,c0,c1,ff}; thorough: all 256 values, \
+         plus every PAIR of substitutions from S) of 40 representative requests (queries, EDNS variants, AXFR/ANY/CH, STATUS, \
+         IQUERY, NOTIFY, UPDATE, records in every section, pointer qnames, long names, QDCOUNT 0/2, a response, TSIG); (F5) \
+         ALL strings over S of length <= 5 (thorough 6) as whole messages; (F6) ALL strings over S of length <= 5 (thorough 6, \
+         plus all 7-octet bodies starting with a one-octet label) as the body behind 3 fixed headers. Oracle = reference front \
+         door written from the statement (frontdoor.rs, no hickory code): number of responses is 0 iff len<12 or QR=1, else \
+         exactly 1, addressed to the source, with QR=1 and the request's id; for queries/updates not answered FORMERR the \
+         DECODED question equals the request's (name case-sensitively, type, class); the rcode is a member of the SET of codes \
+         the statement admits for the conditions that hold (unsupported opcode->NOTIMP, body no RFC reading accepts->FORMERR, \
+         denied source->REFUSED, EDNS version>0->BADVERS, no enclosing zone->REFUSED, otherwise NOERROR/NXDOMAIN for plain \
+         class-IN queries; FORMERR merely tolerated where readings of the RFC differ); answers identify (TXT marker, SOA/NS \
+         owner) the zone whose origin is the longest label-wise suffix of the query name; no panic; the probe is answered \
+         byte-identically afterwards. Non-trivial = distinct (configuration, request) with >= 12 bytes and QR=0.",
     );
     ctx.assume("vref::wire record walker and the c11 reference name reader (RFC 1035 4.1.4) decode the responses");
     ctx.assume("InMemoryZoneHandler lookup of an existing TXT/SOA/NS owner is correct (C10's business); C11 only identifies WHICH zone answered");
@@ -1109,7 +1136,7 @@ fn main() {
     // ---- F1: dispatch product, every opcode ------------------------------------------------
     {
         let qtypes: Vec<u16> = if thorough { vec![16, 1, 6, 2, 28, 255, 252, 41, 65535] } else { vec![16, 1, 6] };
-        let edns: Vec<usize> = if thorough { (0..EDNS_NAMES.len()).collect() } else { vec![0, 1, 2, 3] };
+        let edns: Vec<usize> = if thorough { vec![0, 1, 2, 3, 7, 10, 11, 12] } else { vec![0, 1, 2, 3] };
         let od = Odometer::new(&[16, edns.len() as u64, qtypes.len() as u64, nq, 2, nacl, nshape]);
         let n = od.space();
         ctx.set("F1_dispatch_cases", json!(n));
@@ -1310,14 +1337,31 @@ fn main() {
             ("QUERY RD QD=1 AR=1", hdr(0x0101, 0x0100, [1, 0, 0, 1])),
             ("UPDATE ZO=1 UP=1", hdr(0x0101, 0x2800, [1, 0, 1, 0])),
         ];
-        let maxlen: u32 = if thorough { 7 } else { 5 };
+        let maxlen: u32 = if thorough { 6 } else { 5 };
         let pl = Place { shape: 5, acl: 0, tcp: false };
         let mut total = 0u64;
-        for (hi, (_, h)) in headers.iter().enumerate() {
+        if thorough {
+            // all 7-octet bodies that start with a one-octet label (complete one-label questions)
+            let h = &headers[0].1;
+            let n = vcore::enumerate::pow(14, 6);
+            total += n;
+            ctx.par_run_init(
+                n,
+                4096,
+                |_| (Worker::new(&world), Vec::<u8>::new()),
+                |i, l, (w, buf)| {
+                    vcore::enumerate::string_at(&S, 6, i, buf);
+                    let mut m = h.clone();
+                    m.push(1);
+                    m.extend_from_slice(buf);
+                    run_one(w, "F6", pl, &m, l);
+                },
+            );
+            ctx.set("F6_len7_bodies_starting_with_01", json!(n));
+            ctx.set("distinct_nontrivial_note", json!("vcore caps the digest set at 40,000,000 entries; the thorough tier executes more distinct non-trivial requests than that (see the per-family case counts)"));
+        }
+        for (_hi, (_, h)) in headers.iter().enumerate() {
             for len in 0..=maxlen {
-                if len == 7 && hi != 0 {
-                    continue; // length 7 only behind the plain query header
-                }
                 let n = vcore::enumerate::pow(14, len);
                 total += n;
                 ctx.par_run_init(
